@@ -28,12 +28,13 @@ def parseRaw? (s : String) : Option Raw :=
 def parseCut? (s : String) : Option (Option Int) :=
   if s == "none" then some none else (parseInt? s).map some
 
-/-- `all <raw> <rel> <relIsBool> <cutoff> <start> <enforceRel>` -/
+/-- `all <raw> <rel> <relIsBool> <cutoff> <start> <enforceRel> <cutoff2>`; the `d*` outputs use the objects
+DERIVED with `cutoff` (`to_absolute` / `to_relative`) at the other cutoff `cutoff2` -/
 def handle (toks : List String) : String :=
   match toks with
-  | ["all", raw, rel, rib, cut, start, enf] =>
-    match parseRaw? raw, parseBool? rel, parseBool? rib, parseCut? cut, parseInt? start, parseBool? enf with
-    | some raw, some rel, some rib, some c, some start, some enf =>
+  | ["all", raw, rel, rib, cut, start, enf, cut2] =>
+    match parseRaw? raw, parseBool? rel, parseBool? rib, parseCut? cut, parseInt? start, parseBool? enf, parseCut? cut2 with
+    | some raw, some rel, some rib, some c, some start, some enf, some c2 =>
       let fhE := mk raw rel rib
       match fhE with
       | .error e => s!"mk={showErr e}"
@@ -51,9 +52,16 @@ def handle (toks : List String) : String :=
           s!"idx0={showE showIntList (toIndexer fh c false)}",
           s!"chk={showE showFH (checkFh (.ok fh) enf)}",
           s!"rt={showE showFH ((toAbsolute fh c).bind (fun a => toRelative a c))}",
-          s!"rt2={showE showFH ((toRelative fh c).bind (fun a => toAbsolute a c))}" ]
+          s!"rt2={showE showFH ((toRelative fh c).bind (fun a => toAbsolute a c))}",
+          s!"drel={showE showFH ((toAbsolute fh c).bind (fun a => toRelative a c2))}",
+          s!"dabs={showE showFH ((toRelative fh c).bind (fun a => toAbsolute a c2))}",
+          s!"didx={showE showIntList ((toAbsolute fh c).bind (fun a => toIndexer a c2 true))}",
+          s!"dins={showE showFH ((toAbsolute fh c).bind (fun a => toInSample a c2))}",
+          s!"doos={showE showFH ((toAbsolute fh c).bind (fun a => toOutOfSample a c2))}",
+          s!"dallin={showE showBool ((toAbsolute fh c).bind (fun a => isAllInSample a c2))}",
+          s!"dallout={showE showBool ((toAbsolute fh c).bind (fun a => isAllOutOfSample a c2))}" ]
         " ".intercalate parts
-    | _, _, _, _, _, _ => "bad-op"
+    | _, _, _, _, _, _, _ => "bad-op"
   | _ => "bad-op"
 
 end SkVerif.Drv.C02
